@@ -32,6 +32,38 @@ theorem kick_busy (s : St) (j : Nat) (h : s.core.waiting = some j) : kick s = s 
 
 theorem inv_init : Inv {} := ⟨0, rfl, Or.inl ⟨rfl, rfl, rfl, by simp [scan], by simp [succeeded]⟩⟩
 
+theorem inv_finStep (s : St) (i : Nat) (r : Res) (h : Inv s) : Inv (finStep s i r) := by
+  obtain ⟨n, hn, h⟩ := h
+  rcases h with hi | ⟨j, k, hjk, hb⟩
+  · have : s.core.waiting ≠ some i := by rw [hi.waiting]; simp
+    simp only [finStep, this, if_false]; exact ⟨n, hn, Or.inl hi⟩
+  · obtain ⟨hw, hch, hscan, hsnap, hcont⟩ := hb
+    by_cases hij : i = j
+    · subst hij
+      have hnext : (commit s.core i r).nextId = s.core.nextId := by cases r <;> rfl
+      have := run_triples k (i + 1)
+        { commit s.core i r with waiting := none, log := (commit s.core i r).log ++ [Ev.finish i r],
+                                 evq := (commit s.core i r).evq ++ [(i, r)], cur := .ok }
+        rfl rfl
+        (by
+          have : (commit s.core i r).log = s.core.log := by cases r <;> rfl
+          simp only [this]; rw [scan_append, hscan]; simp [scan])
+        (by
+          cases r with
+          | ok => simp [commit, succeeded_append, succeeded, hsnap, hcont]
+          | fail => simp [commit, succeeded_append, succeeded, hcont])
+      obtain ⟨h1, h2⟩ := this
+      simp only [finStep]
+      rw [if_pos hw, kick_idle _ rfl]
+      simp only [hch, run]
+      refine ⟨n, by rw [← hn, ← hnext]; exact h1, ?_⟩
+      rcases h2 with h | ⟨j', k', hj, _, hb⟩
+      · left; rw [show n = i + 1 + k by omega]; exact h
+      · exact Or.inr ⟨j', k', by omega, hb⟩
+    · have : s.core.waiting ≠ some i := by rw [hw]; simp; omega
+      simp only [finStep, this, if_false]
+      exact ⟨n, hn, Or.inr ⟨j, k, hjk, ⟨hw, hch, hscan, hsnap, hcont⟩⟩⟩
+
 theorem inv_step (s : St) (op : Op) (h : Inv s) : Inv (step s op) := by
   obtain ⟨n, hn, h⟩ := h
   cases op with
@@ -59,35 +91,10 @@ theorem inv_step (s : St) (op : Op) (h : Inv s) : Inv (step s op) := by
       simp only [hch, List.cons_append]
       rw [show s.core.nextId = j + 1 + k by omega, triplesFrom_snoc]
   | fin i r =>
-    rcases h with hi | ⟨j, k, hjk, hb⟩
-    · have : s.core.waiting ≠ some i := by rw [hi.waiting]; simp
-      simp only [step, this, if_false]; exact ⟨n, hn, Or.inl hi⟩
-    · obtain ⟨hw, hch, hscan, hsnap, hcont⟩ := hb
-      by_cases hij : i = j
-      · subst hij
-        have hnext : (commit s.core i r).nextId = s.core.nextId := by cases r <;> rfl
-        have := run_triples k (i + 1)
-          { commit s.core i r with waiting := none, log := (commit s.core i r).log ++ [Ev.finish i r],
-                                   evq := (commit s.core i r).evq ++ [(i, r)], cur := .ok }
-          rfl rfl
-          (by
-            have : (commit s.core i r).log = s.core.log := by cases r <;> rfl
-            simp only [this]; rw [scan_append, hscan]; simp [scan])
-          (by
-            cases r with
-            | ok => simp [commit, succeeded_append, succeeded, hsnap, hcont]
-            | fail => simp [commit, succeeded_append, succeeded, hcont])
-        obtain ⟨h1, h2⟩ := this
-        simp only [step]
-        rw [if_pos hw, kick_idle _ rfl]
-        simp only [hch, run]
-        refine ⟨n, by rw [← hn, ← hnext]; exact h1, ?_⟩
-        rcases h2 with h | ⟨j', k', hj, _, hb⟩
-        · left; rw [show n = i + 1 + k by omega]; exact h
-        · exact Or.inr ⟨j', k', by omega, hb⟩
-      · have : s.core.waiting ≠ some i := by rw [hw]; simp; omega
-        simp only [step, this, if_false]
-        exact ⟨n, hn, Or.inr ⟨j, k, hjk, ⟨hw, hch, hscan, hsnap, hcont⟩⟩⟩
+    simp only [step]
+    split
+    · exact ⟨n, hn, h⟩
+    · exact inv_finStep s i r ⟨n, hn, h⟩
   | turn =>
     rcases h with hi | ⟨j, k, hjk, hb⟩
     · obtain ⟨hw, hch, hcur, hscan, hcont⟩ := hi
@@ -112,6 +119,20 @@ theorem inv_step (s : St) (op : Op) (h : Inv s) : Inv (step s op) := by
       · have : s.core.waiting ≠ some i := by rw [hw]; simp; omega
         simp only [step, this, if_false]
         exact ⟨n, hn, Or.inr ⟨j, k, hjk, ⟨hw, hch, hscan, hsnap, hcont⟩⟩⟩
+  | innerReq i =>
+    rcases h with hi | ⟨j, k, hjk, hb⟩
+    · have : s.core.waiting ≠ some i := by rw [hi.waiting]; simp
+      simp only [step, this, if_false]; exact ⟨n, hn, Or.inl hi⟩
+    · obtain ⟨hw, hch, hscan, hsnap, hcont⟩ := hb
+      by_cases hij : i = j
+      · subst hij
+        simp only [step, if_pos hw]
+        refine ⟨n + 1, by simp [hn], Or.inr ⟨i, k + 1, by omega, ⟨hw, ?_, hscan, hsnap, hcont⟩⟩⟩
+        simp only [hch, List.cons_append]
+        rw [show s.core.nextId = i + 1 + k by omega, triplesFrom_snoc]
+      · have : s.core.waiting ≠ some i := by rw [hw]; simp; omega
+        simp only [step, this, if_false]
+        exact ⟨n, hn, Or.inr ⟨j, k, hjk, ⟨hw, hch, hscan, hsnap, hcont⟩⟩⟩
 
 theorem inv_foldl (ops : List Op) (s : St) (h : Inv s) : Inv (ops.foldl step s) := by
   induction ops generalizing s with
@@ -119,5 +140,112 @@ theorem inv_foldl (ops : List Op) (s : St) (h : Inv s) : Inv (ops.foldl step s) 
   | cons op rest ih => exact ih _ (inv_step s op h)
 
 theorem inv_runOps (ops : List Op) : Inv (runOps ops) := inv_foldl ops {} inv_init
+
+/-! ### the self-wait deadlock -/
+
+/-- operation `i` is in progress and waits for operation `j`, requested from inside it, which has not finished -/
+def SelfWait (s : St) (i j : Nat) : Prop :=
+  s.core.waiting = some i ∧ (i, j) ∈ s.core.inner ∧ finishedIn s.core.log j = false
+
+theorem blocked_of_selfWait (s : St) (i j : Nat) (h : SelfWait s i j) : blocked s.core i = true := by
+  obtain ⟨_, hm, hf⟩ := h
+  unfold blocked
+  rw [List.any_eq_true]
+  exact ⟨(i, j), hm, by simp [hf]⟩
+
+theorem finishedIn_append (l1 l2 : List Ev) (j : Nat) :
+    finishedIn (l1 ++ l2) j = (finishedIn l1 j || finishedIn l2 j) := by simp [finishedIn]
+
+theorem selfWait_step (s : St) (i j : Nat) (op : Op) (h : SelfWait s i j) : SelfWait (step s op) i j := by
+  have hb := blocked_of_selfWait s i j h
+  obtain ⟨hw, hm, hf⟩ := h
+  cases op with
+  | req sync =>
+    simp only [step]
+    rw [kick_busy _ i (by exact hw)]
+    exact ⟨hw, hm, hf⟩
+  | fin i' r =>
+    simp only [step]
+    by_cases hi : i' = i
+    · subst hi; simp only [hb, if_true]; exact ⟨hw, hm, hf⟩
+    · have : s.core.waiting ≠ some i' := by rw [hw]; simp; omega
+      split
+      · exact ⟨hw, hm, hf⟩
+      · simp only [finStep, this, if_false]; exact ⟨hw, hm, hf⟩
+  | turn =>
+    refine ⟨hw, hm, ?_⟩
+    simp only [step]
+    rw [finishedIn_append, hf]
+    simp [finishedIn]
+  | retry i' =>
+    simp only [step]
+    split
+    · refine ⟨hw, hm, ?_⟩
+      show finishedIn (s.core.log ++ [Ev.retry i']) j = false
+      rw [finishedIn_append, hf]; simp [finishedIn]
+    · exact ⟨hw, hm, hf⟩
+  | innerReq i' =>
+    simp only [step]
+    split
+    · exact ⟨hw, List.mem_cons_of_mem _ hm, hf⟩
+    · exact ⟨hw, hm, hf⟩
+
+theorem selfWait_foldl (ops : List Op) (s : St) (i j : Nat) (h : SelfWait s i j) : SelfWait (ops.foldl step s) i j := by
+  induction ops generalizing s with
+  | nil => exact h
+  | cons op rest ih => exact ih _ (selfWait_step s i j op h)
+
+/-- without `innerReq` events nothing ever waits from inside -/
+def NoInner (ops : List Op) : Prop := ∀ op, op ∈ ops → ∀ i, op ≠ Op.innerReq i
+
+theorem run_inner (ch : List Item) (c : Core) : (run ch c).1.inner = c.inner := by
+  induction ch generalizing c with
+  | nil => simp [run]
+  | cons it rest ih =>
+    cases it with
+    | start i =>
+      simp only [run]
+      split
+      · exact ih _
+      · split
+        · rename_i r _
+          rw [ih]; cases r <;> rfl
+        · rfl
+    | handoff i => simp only [run]; rw [ih]
+    | logerr => simp only [run]; rw [ih]
+
+theorem kick_inner (s : St) : (kick s).core.inner = s.core.inner := by
+  unfold kick
+  split
+  · rfl
+  · exact run_inner _ _
+
+theorem step_inner_noInner (s : St) (op : Op) (hop : ∀ i, op ≠ Op.innerReq i) (h : s.core.inner = []) :
+    (step s op).core.inner = [] := by
+  cases op with
+  | req sync => simp only [step]; rw [kick_inner]; exact h
+  | fin i r =>
+    simp only [step]
+    split
+    · exact h
+    · simp only [finStep]
+      split
+      · rw [kick_inner]; cases r <;> exact h
+      · exact h
+  | turn => exact h
+  | retry i => simp only [step]; split <;> exact h
+  | innerReq i => exact absurd rfl (hop i)
+
+theorem inner_nil_of_noInner (ops : List Op) (h : NoInner ops) : (runOps ops).core.inner = [] := by
+  have : ∀ (l : List Op) (s : St), (∀ op, op ∈ l → ∀ i, op ≠ Op.innerReq i) → s.core.inner = [] →
+      (l.foldl step s).core.inner = [] := by
+    intro l
+    induction l with
+    | nil => intro s _ hs; exact hs
+    | cons op rest ih =>
+      intro s hl hs
+      exact ih _ (fun o ho => hl o (List.mem_cons_of_mem _ ho))
+        (step_inner_noInner s op (hl op List.mem_cons_self) hs)
+  exact this ops {} h rfl
 
 end Tahoe.Serializer
